@@ -96,7 +96,10 @@ def check(run):
                 small = D.shrink_case(case, still)
                 sa = D.run_three(binpath, [small])[0]
                 run.violation("; ".join(judge(small, sa))[:600], replay_obj(small, sa, judge(small, sa)))
-        if all(D.answer_ok(a) for a in ans):
+        if all(D.answer_ok(a) for a in ans) and max(len(D.all_trace(a)) for a in ans) > D.MAX_TRACE:
+            run.count("model-skipped(trace too long)")
+            run.case(None)
+        elif all(D.answer_ok(a) for a in ans):
             impl, ex, tbl = D.model_exprs_three(case, ans)
             if tbl.conflicts:
                 run.tie_broken("stream pipeline is not a deterministic function of its delivery history", json.dumps(tbl.conflicts[0][1])[:500])
